@@ -98,6 +98,9 @@ def run(ctx: Ctx):
     # a connection closed after a fault must also leave the tables, otherwise the
     # reconnecting peer is not served "as on a fresh node"
     closed_connections_are_removed(ctx, "C14-R5")
+    # ... and the I/O loop only learns about a closed connection through its wake-up
+    from .common_node import wakeup_tokens_all_handled
+    wakeup_tokens_all_handled(ctx, "C14-R6")
 
 
 def _origin_tag(chain: list[str]) -> str:
